@@ -658,6 +658,63 @@ func famDischarge(r *Rng, o *Out, tier string) {
 				}
 			}
 		}
+		// a third-party caveat WRAPPED in another caveat is not handled by verification (no discharge is looked up for
+		// it); it reaches clearing, where it refuses every request. So a token that carries one - or whose discharge
+		// carries one - authorises nothing: with no discharge, a forged one or a genuine one for the wrapped ticket
+		{
+			kw := r.Bytes(32)
+			wit, err := newTP(kw, "https://wrapped.example")
+			if err == nil {
+				// (Add seals a verifier key into top-level third-party caveats only: a wrapped one keeps a nil key, which
+				// the wire form writes as nil. The model's byte fields do not tell nil from empty, so that variant is
+				// judged by the oracle line alone; the variant with a key goes to the model too.)
+				nilKey := r.Bool()
+				if !nilKey {
+					wit.cav.(*macaroon.Caveat3P).VerifierKey = r.Bytes(pick(r, []int{0, 1, 72}))
+				}
+				wrapped := &resset.IfPresent{Ifs: macaroon.NewCaveatSet(wit.cav), Else: resset.ActionAll}
+				dq := r.Dyn()
+				dq.WF = ""
+				acc, sx := dq.As("full"), dq.Sx("full")
+				_, wd, _ := macaroon.DischargeTicket(kw, "https://wrapped.example", wit.tp.ticket)
+				forged, _ := macaroon.New(wit.tp.ticket, "https://wrapped.example", r.Bytes(32))
+				cands := [][][]byte{nil, {mustEnc(wd)}, {mustEnc(forged)}}
+				var tokB []byte
+				var base [][]byte
+				kind := "permission"
+				if r.Bool() || len(tps) == 0 {
+					t2, _ := macaroon.New(r.Bytes(8), loc, key)
+					if t2.Add(wrapped) == nil {
+						tokB = mustEnc(t2)
+					}
+				} else {
+					// the genuine discharge of a top-level caveat carries the wrapped one
+					kind = "discharge"
+					t2, _ := macaroon.New(r.Bytes(8), loc, key)
+					it, _ := newTP(tps[0].p.ka, tps[0].p.loc)
+					t2.Add(it.cav)
+					_, d, _ := macaroon.DischargeTicket(tps[0].p.ka, tps[0].p.loc, it.tp.ticket)
+					if d.Add(wrapped) == nil {
+						tokB, base = mustEnc(t2), [][]byte{mustEnc(d)}
+					}
+				}
+				if tokB != nil {
+					for ci, c := range cands {
+						ds := append(append([][]byte{}, base...), c...)
+						co := clearObs(key, tokB, ds, []macaroon.Access{acc})
+						o.count(fmt.Sprintf("wrapped3p.%s.nilkey=%v.cand%d.%s", kind, nilKey, ci, co))
+						if !nilKey {
+							o.emit(fmt.Sprintf("(clear %s %s %s (trust) (%s))", hx(key), hx(tokB), sxHexList(ds), sx), co)
+						}
+						if co == "permit" {
+							o.emit("(const sound)", "wrapped-third-party-caveat-ignored:"+kind)
+						} else {
+							o.emit("(const sound)", "sound")
+						}
+					}
+				}
+			}
+		}
 		// tickets: wrong key, flipped bytes, truncation
 		for _, u := range tps {
 			run := func(kind string, ka, ticket []byte) {
@@ -993,16 +1050,41 @@ func famBind(r *Rng, o *Out, tier string) {
 			}
 		}
 		// a token that carries a binding, presented as a permission token
-		pm, _ := macaroon.Decode(hs[r.Intn(len(hs))].bytes)
-		pm.BindToParentMacaroon(root)
-		obs := emitVerify(o, key, mustEnc(pm), with(mkDis(nil, false)), nil)
-		if obs == "err:unmodelled" {
-			continue
-		}
-		if strings.HasPrefix(obs, "ok") {
-			o.emit("(const sound)", "bound-permission-token-accepted")
-		} else {
-			o.emit("(const sound)", "sound")
+		// (the binding Bind would write, or one written by hand: the empty one - a prefix of every id -, one byte,
+		// a prefix of the token's own id, 32 bytes; alone or next to a discharge bound to that very token)
+		for k := 0; k < 4; k++ {
+			pm, _ := macaroon.Decode(hs[r.Intn(len(hs))].bytes)
+			kind := "bind"
+			if k == 0 {
+				pm.BindToParentMacaroon(root)
+			} else {
+				ownID := sha256.Sum256(pm.Tail)
+				ln := pick(r, []int{0, 0, 1, 16, 32})
+				hb := macaroon.BindToParentToken(ownID[:ln])
+				if r.Chance(1, 4) {
+					hb = macaroon.BindToParentToken(r.Bytes(ln))
+				}
+				kind = fmt.Sprintf("hand.len%d", ln)
+				if pm.Add(&hb) != nil {
+					continue
+				}
+			}
+			pmB := mustEnc(pm)
+			ds := with(mkDis(nil, false))
+			if r.Bool() {
+				ds = with(mkDis([][]byte{pmB}, false))
+				kind += ".boundDischarge"
+			}
+			o.count("boundPermission." + kind)
+			obs := emitVerify(o, key, pmB, ds, nil)
+			if obs == "err:unmodelled" {
+				continue
+			}
+			if strings.HasPrefix(obs, "ok") {
+				o.emit("(const sound)", "bound-permission-token-accepted:"+kind)
+			} else {
+				o.emit("(const sound)", "sound")
+			}
 		}
 	}
 }
@@ -1255,6 +1337,32 @@ func famAttest(r *Rng, o *Out, tier string) {
 			// (under a trusting map the genuine discharge's honest identity may surface - or the whole verification is
 			// refused because the copied caveat's key does not match the ticket's, when the forged discharge names the
 			// trusted location; the forged identity must never surface: that is the uid+500000 test below)
+		}
+		// 9. the trusted party hands out a CLONE of the proof it is still building (Clone before any Encode or String):
+		// the clone is as final as an encoding - it verifies, its honest identity surfaces under a trusting map, and a
+		// bearer who appends a forged identity by hand (MAC continued from the published tail, finalised again or not)
+		// gets nothing
+		{
+			_, d, _ := macaroon.DischargeTicket(kaTrusted, tpLoc, it.tp.ticket)
+			d.Add(att())
+			if cl, err := d.Clone(); err == nil {
+				issued := mustEnc(cl)
+				cases = append(cases, cas{"trusted.proof.issuedClone", final, [][]byte{issued}, true, trusting})
+				for _, refinal := range []bool{true, false} {
+					dd, err := macaroon.Decode(issued)
+					if err != nil {
+						continue
+					}
+					forged := auth.FlyioUserID(uint64(uid) + 500000)
+					fe, _ := encOne(&forged)
+					dd.UnsafeCaveats.Caveats = append(dd.UnsafeCaveats.Caveats, &forged)
+					dd.Tail = hmacSum(dd.Tail, fe)
+					if refinal {
+						dd.Tail = finalizeSig(dd.Tail)
+					}
+					cases = append(cases, cas{fmt.Sprintf("trusted.proof.issuedClone.extended.refinal=%v", refinal), final, [][]byte{mustEnc(dd)}, false, never})
+				}
+			}
 		}
 		for _, c := range cases {
 			tms := []string{"nil", "empty", "wrongloc", "wrongkey", "several", "right", "shortkey"}
